@@ -16,7 +16,7 @@ func init() { register("C01", "exploration", runC01) }
 
 func reportProgCases(r *core.Run, cases []*progCase, prefix string) (ok int) {
 	for _, c := range cases {
-		files := map[string]string{"x.fo": c.src, "expected_stdout.txt": c.expect, "observed_stdout.txt": c.got, "gen_x.go": c.gen, "detail.txt": c.status + "\n" + c.detail + "\n"}
+		files := map[string]string{"x.fo": c.src, "expected_stdout.txt": c.expect, "observed_stdout.txt": c.got, "gen_x.go": c.gen, "detail.txt": c.status + "\n" + c.detail + "\n", "fc_diag.txt": c.fcDiag}
 		switch c.status {
 		case "ok":
 			ok++
